@@ -14,7 +14,7 @@ RULE = ("for each history (one mutator on an existing file, or a multi-file buff
         "EVERY point the history is re-run in a forked child that dies there (os._exit), then every file must be "
         "byte-identical to one of its complete versions and open in a fresh collection; plus unserialisable content in all "
         "write modes; non-trivial = crash points that land inside the save (a temp file exists or a file already changed)")
-BOUNDS = {"quick": "JSONDict/JSONList x 3 modes x 4 mutators, buffered flush scenarios for both strategies (dict)",
+BOUNDS = {"quick": "JSONDict/JSONList x 3 modes x 4 mutators, buffered flush scenarios for both strategies (dict), basenames of 216 and 255 bytes",
           "thorough": "all 12 JSON classes x 3 modes x 8 mutators, all flush scenarios x 4 buffered classes"}
 ASSUMPTIONS = ["process death, not power loss (no fsync reasoning)", "POSIX rename atomicity of the real file system (tmpfs / ext4)"]
 
@@ -93,6 +93,16 @@ def scenarios(tier):
             cfg = seq.Config(c, initial=(env.ABSENT,), label=c)
             out.append({"label": "%s/create/%s" % (c, mode), "cfg": cfg, "mode": mode, "pre": (), "window": (ev,),
                         "family": "mutator"})
+    # file names at the limits of the file system: the longest basename for which the temp-file scheme still fits,
+    # and NAME_MAX itself (where a save may legitimately fail - but must not damage the file)
+    for c in (("JSONDict",) if tier == "quick" else ("JSONDict", "JSONList", "BufferedJSONDict", "MemoryBufferedJSONDict")):
+        kind_ = env.kind_of(c)
+        ev = ("op", 0, "setitem", ("n", {"x": [1, 2]})) if kind_ == "dict" else ("op", 0, "append", ({"x": [1, 2]},))
+        for n in ((216, 255) if tier == "quick" else (200, 216, 217, 240, 254, 255)):
+            for mode in (("thr",) if tier == "quick" else ("thr", "wc")):
+                cfg = seq.Config(c, initial=(INIT[kind_],), label=c)
+                out.append({"label": "%s/name%d/%s" % (c, n, mode), "cfg": cfg, "mode": mode, "pre": (), "window": (ev,),
+                            "family": "mutator", "namelen": n})
     for c in (("BufferedJSONDict", "MemoryBufferedJSONList") if tier == "quick" else
               ("BufferedJSONDict", "MemoryBufferedJSONDict", "BufferedJSONList", "MemoryBufferedJSONList")):
         kind_ = env.kind_of(c)
@@ -132,6 +142,10 @@ def run_task(task):
     res = new_result()
     cfg = scn["cfg"]
     paths = [env.fresh_name("c%d_" % i) for i in range(len(cfg.initial))]
+    if scn.get("namelen"):
+        d, b = os.path.split(paths[0])
+        paths[0] = os.path.join(d, b[:-5] + "x" * (scn["namelen"] - len(b)) + ".json")
+        assert len(os.path.basename(paths[0])) == scn["namelen"]
     try:
         fault.reset_files(paths, cfg.initial)
         m = fault.measure(scn, paths)
@@ -197,7 +211,7 @@ def _viol(scn, pt, kind_, detail):
                        "scn": {"label": scn["label"], "cfg": cfg_to_doc(scn["cfg"]), "mode": scn["mode"],
                                "pre": repr(scn["pre"]), "window": repr(scn["window"]), "family": scn["family"],
                                "fail_dumps": scn.get("fail_dumps", False),
-                               "plant_unserializable": scn.get("plant_unserializable", False)}}}
+                               "plant_unserializable": scn.get("plant_unserializable", False), "namelen": scn.get("namelen")}}}
 
 
 def replay(doc):
@@ -206,6 +220,6 @@ def replay(doc):
     s = doc["scn"]
     scn = {"label": s["label"], "cfg": cfg_from_doc(s["cfg"]), "mode": s["mode"], "pre": _lit(s["pre"]),
            "window": _lit(s["window"]), "family": s["family"], "fail_dumps": s.get("fail_dumps"),
-           "plant_unserializable": s.get("plant_unserializable")}
+           "plant_unserializable": s.get("plant_unserializable"), "namelen": s.get("namelen")}
     r = run_task({"scn": scn, "label": scn["label"]})
     return [(v["signature"].split("|")[-1], v["detail"]) for v in r["violations"]]
